@@ -131,3 +131,17 @@ CLAIMS["C01"] = {
             "summary of groupby/merge/fillna/assign is specific to the idioms used in this repository; other idioms stop the check "
             "with ANALYSIS-ERROR rather than being guessed.",
 }
+
+CLAIMS["C02"] = {
+    "technique": "frame algebra (provenance of the aggregate pipelines, helpers / super() inlined) normalised to signed sums of "
+                 "per-group sums; row signatures (group universe, order, index) of prediction table vs interval vectors; "
+                 "indicator-matrix row bookkeeping for the bootstrap model",
+    "level": "Decides for every group structure, level and estimator: pred_e = S_R + S_U (results) + S_N (pred) and the "
+             "nonparametric bounds = the same with S_N (lower/upper), each operand filled before adding and rounded; prediction "
+             "table and interval vectors have identical group universe, ascending key order and 0..n-1 index for the "
+             "nonparametric and gaussian estimators (incl. the gaussian early return), so the positional assignment cannot shift "
+             "rows even when a group exists only among unexpected or only among nonreporting units; bootstrap pred_margin is the "
+             "documented quotient over the reported pred_turnout; lower/upper land in lower_*/upper_* columns.",
+    "note": "Assumes C01.R1 (disjoint frames) and C15.R3 (gaussian: one model per outstanding group), which have their own checks; "
+            "pandas ordering semantics as documented (groupby sort=True, outer merge sorts keys).",
+}
